@@ -319,6 +319,13 @@ def r3_typestate(P, rep, ctx):
     )
     rep.check(cmp_ok, "C02.R3", fi.qual, "_has_writable is `mode == 'r+'`", fi.loc(), construct="mode comparison in _has_writable",
               message="_has_writable does not compare the newest container's mode with 'r+'")
+    # the handle mode alone is not a sound typestate (HDF5 shares open flags between the handles of a process):
+    # a container whose user block already carries a payload hash is committed and must never count as writable
+    rets = [x.value for x in walk_local(fi.node) if isinstance(x, ast.Return) and x.value is not None]
+    pos = [r for r in rets if not (isinstance(r, ast.Constant) and r.value is False)]
+    conj_ok = bool(pos) and all(isinstance(r, ast.BoolOp) and isinstance(r.op, ast.And) and any(norm(v) in ("self._ublock(-1).hdf5_hashsum is None", "self._ublock(f).hdf5_hashsum is None") for v in r.values) for r in pos)
+    rep.check(conj_ok, "C02.R3", fi.qual, "a container with a recorded payload hash (committed) never counts as writable, whatever mode the handle reports", fi.loc(), construct="_has_writable requires an uncommitted newest container",
+              message="_has_writable infers writability from the h5py handle's mode alone: HDF5 shares open flags between handles of one process, so with a second handle on the record open the committed container still reports 'r+' after commit_patch and later writes modify it")
     # _expect_not_ro raises iff mode == 'r'; mode derives from _allow_patching
     fi = P.func("ih5.record.IH5Record._expect_not_ro")
     g = ctx.cfg(fi)
